@@ -35,7 +35,9 @@ WATCHDOG = {"quick": 240.0, "thorough": 900.0}
 
 def gen_cases(tier, seed):
     n = 64 if tier == "quick" else 1000
-    out = []
+    # deterministic placement of the interrupt inside threading.Condition.__enter__ of the run queue's mutex (see run_enter_race)
+    out = [{"seed": env.seed_for(seed, ID, tier, "enter", j), "mode": "enter_race", "W": w, "sched": sc, "where": wh}
+           for j, (w, sc, wh) in enumerate([(2, "default", "join"), (1, "random", "join")] + ([(4, "random", "join"), (2, "default", "join")] if tier != "quick" else []))]
     for i in range(n):
         s = env.seed_for(seed, ID, tier, i)
         r = random.Random(s)
@@ -76,6 +78,9 @@ class Interrupter:
         self.drv.open = True  # gate open: calls pass freely until call k
         self.run_raised = False
         self.want_steady = False
+        self.resent = 0
+        self.stuck_rounds = 0
+        self.gave_up = False
 
     def send(self):
         self.drv.open = False
@@ -111,6 +116,27 @@ class Interrupter:
             if in_qjoin:
                 self.send()
             return
+        if in_qjoin and self.sent_seq is not None and self.resent < 3:
+            # The process is quiescent, the signal was delivered, and the caller is parked in queue.join again: CPython
+            # raised the KeyboardInterrupt inside a weakref callback / __del__ and dropped it ("Exception ignored in ...").
+            # That is the interpreter's doing, not uberjob's; a user would press Ctrl-C again.
+            self.resent += 1
+            signal.pthread_kill(threading.main_thread().ident, signal.SIGINT)
+            return
+        if self.sent_seq is not None and not joined:
+            # quiescent, signal delivered, but the caller is parked neither in the pool's join nor (resendably) in queue.join.
+            # Nothing changes while the gate stays closed; after a bounded number of identical observations open it and let
+            # the ordinary monitors decide (a deadlock is then reported with every thread's stack).
+            self.stuck_rounds += 1
+            if self.stuck_rounds >= 30:
+                with self.H.lock:
+                    self.phase_seq = self.H.seq
+                self.phase_kind = "caller parked outside the pool join: " + "<".join(n for n, f in names[:4])
+                self.main_stack_at_phase = names
+                self.gave_up = True
+                drv.hold = False
+                drv.release_all()
+            return
         if joined:
             with self.H.lock:
                 self.phase_seq = self.H.seq
@@ -123,8 +149,14 @@ class Interrupter:
         self.deadlock = stacks
         H = self.H
         starts_after = [e for e in H.events if e[1] == "start" and self.phase_seq is not None and e[0] > self.phase_seq]
+        main_stack = " ".join(stacks.get("MainThread", []))
+        mech = "hang-after-interrupt" if self.phase_seq is not None else "hang"
+        if "shutdown" in main_stack and ":put" in main_stack and main_stack.rstrip().endswith("__enter__"):
+            # the caller is blocked acquiring the run queue's mutex inside shutdown(): it holds that mutex itself, because the
+            # KeyboardInterrupt was raised inside threading.Condition.__enter__ (a Python-level wrapper) after the lock was taken
+            mech = "interrupt-left-queue-mutex-locked"
         abort.abort_with({
-            "status": "violation", "mechanism": "hang-after-interrupt" if self.phase_seq is not None else "hang",
+            "status": "violation", "mechanism": mech,
             "detail": ("after the interrupt was handled and the gate re-opened, run never finished: every engine thread is parked in an untimed wait"
                        f" (starts after the interrupt was handled: {[e[2] for e in starts_after][:6]})"),
             "witness": {"stacks": stacks, "history": H.compact_history(300), "k": self.k, "position": self.position,
@@ -183,7 +215,7 @@ def one_interrupt(desc, build, k, position):
         except KeyboardInterrupt:
             I.drv.run_done = True
             I.drv.stop()
-    info = {"k": k, "position": position, "phase": I.phase_kind, "sent": I.sent_seq is not None, "exc": type(exc).__name__ if exc else None}
+    info = {"k": k, "position": position, "phase": I.phase_kind, "resent": I.resent, "sent": I.sent_seq is not None, "exc": type(exc).__name__ if exc else None}
     if I.sent_seq is None:
         return None, None, dict(info, note="call index never reached"), ctx
     # ---- verdicts
@@ -257,11 +289,74 @@ def _tb_in(exc, fname, file=None):
     return False
 
 
+def run_enter_race(desc):
+    """The interrupt surfaces inside threading.Condition.__enter__ (a Python-level wrapper around the queue's mutex) right
+    after the lock was acquired, as the caller enters queue.join(): CPython checks for pending signals after the C call
+    `self._lock.__enter__()` returns. A trace function raises the KeyboardInterrupt at exactly that point (main thread only)."""
+    import time as _t
+
+    import uberjob
+
+    fired = []
+
+    def tracer(frame, event, arg):
+        code = frame.f_code
+        if event == "call" and code.co_name == "__enter__" and code.co_filename.endswith("threading.py") and not fired:
+            caller = frame.f_back
+            if caller is not None and caller.f_code.co_name == desc["where"] and caller.f_code.co_filename.endswith("queue.py"):
+                def local(frame, event, arg):
+                    if event == "return" and not fired:
+                        fired.append(1)
+                        raise KeyboardInterrupt
+                    return local
+                return local
+        return None
+
+    def slow():
+        _t.sleep(0.05)
+        return 1
+
+    plan = uberjob.Plan()
+    out = [plan.call(slow) for _ in range(4)]
+
+    def on_deadlock(stacks):
+        main_stack = " ".join(stacks.get("MainThread", []))
+        mech = "hang-after-interrupt"
+        if "shutdown" in main_stack and ":put" in main_stack and main_stack.rstrip().endswith("__enter__"):
+            mech = "interrupt-left-queue-mutex-locked"
+        abort.abort_with({"status": "violation", "mechanism": mech,
+                          "detail": "KeyboardInterrupt raised inside threading.Condition.__enter__ of the run queue's mutex (after the lock was "
+                                    "taken, before the with-block was entered) while the caller entered queue.join(): run never returns - "
+                                    "the caller blocks in shutdown() -> queue.put() on the mutex it still holds",
+                          "witness": {"stacks": stacks, "desc": desc}, "counters": {"enter_race_cases": 1, "hangs": 1}})
+
+    drv = quiesce.WaveDriver(random.Random(0), on_deadlock=on_deadlock, period=0.002)
+    drv.start()
+    exc = None
+    sys.settrace(tracer)
+    try:
+        try:
+            uberjob.run(plan, output=out, max_workers=desc["W"], scheduler=desc["sched"], progress=None)
+        except BaseException as e:
+            exc = e
+    finally:
+        sys.settrace(None)
+        drv.run_done = True
+        drv.stop()
+    res = {"status": "ok", "counters": {"enter_race_cases": 1, "enter_race_interrupt_placed": len(fired)}, "nontrivial": bool(fired),
+           "sig": f"enter_race|{desc['W']}|{desc['sched']}"}
+    if fired and not isinstance(exc, KeyboardInterrupt):
+        res.update(status="violation", mechanism="wrong-exception", detail=f"interrupt inside Condition.__enter__: run ended with {exc!r}")
+    return res
+
+
 def run_case(desc):
     import uberjob
 
     if not quiesce.available():
         return {"status": "inconclusive", "detail": "quiescence detector unavailable"}
+    if desc["mode"] == "enter_race":
+        return run_enter_race(desc)
     seed = desc["seed"]
     rng = random.Random(seed)
 
@@ -319,6 +414,7 @@ def run_case(desc):
         if info.get("phase"):
             counters["phase_observed"] += 1
         counters["late_exit_threads"] += info.get("late_exit_threads") or 0
+        counters["interrupts_dropped_by_interpreter_and_resent"] = counters.get("interrupts_dropped_by_interpreter_and_resent", 0) + (info.get("resent") or 0)
         counters["handled_during_pool_startup"] += int(bool(info.get("handled_during_pool_startup")))
         H = ctx["H"]
         started = {e[2] for e in H.events if e[1] == "start"}
